@@ -1027,7 +1027,9 @@ def _run_path(contract, gridpoint, call_fn, rt, c, res):
             tb = traceback.extract_tb(exc.__traceback__)
             where = "%s:%s" % (tb[-1].name, tb[-1].line) if tb else ""
             import re
-            if isinstance(exc, (TypeError, AttributeError)) and re.search(r"\bSym[A-Z]\w*", str(exc)):
+            tbnames = [f.filename for f in tb]
+            in_proxy = bool(tb) and ("/pyvc/" in tb[-1].filename)
+            if isinstance(exc, (TypeError, AttributeError)) and (re.search(r"\bSym[A-Z]\w*", str(exc)) or in_proxy):
                 # e.g. "unsupported operand type(s) for >>: 'int' and 'SymInt'": an operation the
                 # proxies do not model.  No native run can raise this, so it is a limit of the
                 # checker on this path (undecided), never a verdict about the code.
